@@ -296,6 +296,12 @@ class Check:
     def gen_tables(self, log):
         pass
 
+    CASE_TIMEOUT = None
+
+    def case_timeout(self, case):
+        """Watchdog (seconds) for cases that drive real threads / sockets; None = run inline."""
+        return self.CASE_TIMEOUT
+
     def cases(self, rng, tier):
         return []
 
@@ -413,8 +419,8 @@ def run_check(chk, tier, seed, replay=None):
         nonlocal evals
         cases = list(cases)
         impl_obs = []
-        limit = getattr(chk, 'CASE_TIMEOUT', None)
         for c in cases:
+            limit = chk.case_timeout(c)
             try:
                 if limit:
                     # cases that drive real threads / sockets run under a watchdog: a wedged implementation must become a finding,
